@@ -175,7 +175,11 @@ pub fn judge(spec: &Spec, u: Option<&HirSpec>, s: Option<&HirSpec>) -> Vec<Findi
         let mut structs = BTreeSet::new();
         for o in &s.operations {
             let synth = ops.iter().find(|(pi, so)| pi.path == o.path && so.method == o.method).map(|(_, so)| so.operation_id.is_none()).unwrap_or(false);
-            let class = if synth { "synth_name_collision" } else { "" };
+            // explicit ids that are equal up to case and punctuation (getUser / get_user / get-User): the quantifier of C06
+            // names them; the unchanged code maps them to one name (open finding)
+            let my_id = ops.iter().find(|(pi, so)| pi.path == o.path && so.method == o.method).and_then(|(_, so)| so.operation_id.clone());
+            let case_only = my_id.as_ref().map(|id| ops.iter().filter(|(_, so)| so.operation_id.as_ref().map(|x| x != id && crate::specgen::norm(x) == crate::specgen::norm(id)).unwrap_or(false)).count() > 0).unwrap_or(false);
+            let class = if synth { "synth_name_collision" } else if case_only { "id_case_collision" } else { "" };
             if !names.insert(o.name.clone()) {
                 out.push(f("C06", class, format!("two operations share the name {}", o.name)));
             }
